@@ -45,3 +45,10 @@ for cls, n in CLSN.items():
             defines=['CLS=%d' % cls, 'POL=OLC64'], roots={a: ((r'^unodb::detail::olc_inode_16<unsigned long, %s >::' % SPAN) if (n == 16 and a == 'FIND_CHILD') else onode_rx(n)) + rx for a, rx in READ.items()}, cfgs=CFG_OLC, thorough_cfgs=ALL_CFGS,
             unwind={1: 6, 2: 18, 3: 258, 4: 258}[cls], floor=10, cut=(['%s/for_2econd' % a for a in ('BEGIN', 'LAST', 'NEXT', 'PRIOR', 'GTE', 'LTE')] if cls >= 3 else []), timeout=900,
             under_contract=['basic_inode_%d<olc_db, uint64_t>::%s' % (n, READ[alias].split('\\')[0])])
+# ---- byte-string keys: the two-leaf N4 constructor used by the leaf split (C01; isolates the pinned-tree defect for keys sharing more than 7 bytes past the split depth)
+job('node.dbkv.i4.two_leaves', ['C01'], 'u_db', 'proofs/node/kv_split.c', defines=['POL=DBKV'],
+    roots={'KV_CTOR': node_rx(4, 'KV', 'db') + r'basic_inode_4\(unodb::db<[^()]*>&, %s, unodb::detail::basic_art_key<' % SPAN},
+    stubs={'TAG_PTR?': r'^unodb::detail::basic_node_ptr<unodb::detail::node_header>::tag_ptr\(', 'LEAF_DEL?': r'^unodb::detail::basic_db_leaf_deleter<unodb::db<%s, .*::operator\(\)' % SPAN},
+    cfgs=(BASE, DEBUG), unwind=30, floor=5, timeout=600, replay='replay/known_c01_kv_long_prefix_scenario.cpp',
+    under_contract=['basic_inode_4<db, key_view>::basic_inode_4(db&, key_view k1, art_key shifted_k2, depth, leaf*, leaf unique_ptr&&) (two-leaf split node)', 'key_prefix<key_view>::key_prefix(k1, shifted_k2, depth)', 'add_two_to_empty'],
+    trusted=['node_ptr as an abstract data type'])
